@@ -13,9 +13,11 @@ LEVEL = "exploration"
 N_QUICK, N_THOROUGH = 4800, 200000
 T_QUICK, T_THOROUGH = 75, 1500
 FLOORS = {"graphs": 800, "builds": 150, "with_fieldless": 150, "cyclic": 100, "order_edges_checked": 5000,
-          "guards_checked": 4000, "duplicate_roots": 100, "with_depends_on": 200, "kernels_built_and_called": 50}
+          "guards_checked": 4000, "duplicate_roots": 100, "with_depends_on": 200, "kernels_built_and_called": 50,
+          "with_hybrid_depends_on": 100}
 RULE = ("random dependency DAGs of 2-10 classes of every kind (structs with nested/array/Ref/UnionRef fields, field-less "
-        "structs, array classes, union references, Ref types, declared _depends_on edges), random root subsets, orders "
+        "structs, hybrid classes, array classes, union references, Ref types, declared _depends_on edges on structs and on "
+        "hybrid classes naming plain and hybrid classes), random root subsets, orders "
         "and duplicate roots; oracle: sort_classes lists every class of the dependency closure (computed from the "
         "generator's own graph) exactly once and after all of its dependencies; every XOBJ_TYPEDEF guard occurs once "
         "and before the first use of the type name; a sample is built with the real ContextCpu.add_kernels (cffi cdef "
@@ -84,8 +86,22 @@ def gen_graph(rng):
                     fields[f"f{j}"] = un.cls
                     deps.append(un)
             extra = []
-            if cands and rng.random() < 0.25:
-                extra = rng.sample(cands, 1)
+            hybrid = rng.random() < 0.3
+            if cands and rng.random() < (0.5 if hybrid else 0.25):
+                extra = rng.sample(cands, min(len(cands), rng.choice([1, 1, 2])))
+            if hybrid:
+                # a HybridClass: its _XoStruct is the class that takes part in the C API; declared dependencies may
+                # name plain xobjects classes as well as other hybrid classes
+                ns = {"_xofields": dict(fields)}
+                if extra:
+                    ns["_depends_on"] = [getattr(e, "hy", e.cls) if rng.random() < 0.7 else e.cls for e in extra]
+                hy = type(f"{pre}H{i}", (xo.HybridClass,), ns)
+                n = add("S", hy._XoStruct, deps + extra)
+                n.hy = hy
+                n.has_dep_on = bool(extra)
+                n.hybrid_dep_on = bool(extra)
+                continue
+            if extra:
                 fields["_depends_on"] = [e.cls for e in extra]
             cls = type(f"{pre}S{i}", (xo.Struct,), fields)
             n = add("S", cls, deps + extra)
@@ -158,6 +174,8 @@ def run_case(w, rng):
         w.count("with_fieldless")
     if any(getattr(n, "has_dep_on", False) for n in closure(roots).values()):
         w.count("with_depends_on")
+    if any(getattr(n, "hybrid_dep_on", False) for n in closure(roots).values()):
+        w.count("with_hybrid_depends_on")
     try:
         res = sort_classes([r.cls for r in roots])
         raised = None
